@@ -291,6 +291,37 @@ pub fn run(prop: &'static str, tier: Tier) -> ! {
     }
     families.push(json!({"family": "scale (hundreds of states, many classes)", "configurations": sf.iter().map(|s| s.0.clone()).collect::<Vec<_>>()}));
 
+    // 3z. several modes over the same regex texts: the same list with other token types, the same
+    // list in another order, a prefix of it, and the same list with one lookahead added - every
+    // mode's automaton has to be its own
+    {
+        let g2 = refsem::families::g_upto(2);
+        let mut cfgs = vec![];
+        for (i, p) in g2.iter().enumerate() {
+            let q = &g2[(i * 7 + 3) % g2.len()];
+            let r = &g2[(i * 11 + 5) % g2.len()];
+            let m = |name: &str, pats: Vec<CPat>| bridge::CMode { name: name.into(), pats, transitions: vec![] };
+            cfgs.push(Cfg {
+                modes: vec![
+                    m("A", vec![CPat::new(p, 1), CPat::new(q, 2), CPat::new(r, 0)]),
+                    m("B", vec![CPat::new(p, 7), CPat::new(q, 9), CPat::new(r, 8)]),
+                    m("C", vec![CPat::new(q, 1), CPat::new(p, 2), CPat::new(r, 0)]),
+                    m("D", vec![CPat::new(p, 1), CPat::new(q, 2)]),
+                    m("E", vec![CPat::new(p, 1), CPat::new(q, 2).with_la(false, "a"), CPat::new(r, 0)]),
+                    m("F", vec![CPat::new(p, 2), CPat::new(q, 2), CPat::new(r, 2)]),
+                ],
+            });
+        }
+        let accs = par_for(cfgs.len(), 2, || Acc { samples: Samples::new(1), ..Default::default() }, |acc, i| {
+            let o = check_cfg(&cfgs[i], &tables, do02, do03, do02, true);
+            absorb(acc, prop, &cfgs[i], "same-regex-modes", o);
+        });
+        for a in accs {
+            merge(&mut total, a);
+        }
+        families.push(json!({"family": "six modes over the same three regex texts (one triple per pattern of G(2)): other token types, other order, a prefix, one lookahead added, one token type for all", "configurations": cfgs.len(), "exhaustive": true}));
+    }
+
     // 3a. repetition shapes
     {
         let shapes = refsem::families::repetition_shapes();
